@@ -592,6 +592,11 @@ class GatherMixin:
                 if isinstance(k, str):
                     base.d[k] = v   # dataset attribute (metadata) store
                     return
+            if isinstance(base, _Map) and base.name.endswith(".coords"):
+                k = self.eval(t.slice, st)
+                if isinstance(k, str):
+                    base.d[k] = SData(self.coord_array(v, st, t), name=k)   # ds.coords[name] = labels
+                    return
             return super().assign_target(ast.Subscript(value=_Lit(base), slice=t.slice, ctx=t.ctx, lineno=t.lineno, col_offset=0), v, st, s)
         if isinstance(t, ast.Attribute):
             base = self.eval(t.value, st)
@@ -846,6 +851,28 @@ class GatherMixin:
 
     b_numpy_any = b_numpy_max
     b_numpy_all = b_numpy_min
+
+    def b_numpy_array(self, args, kw, st, n):
+        v = args[0]
+        if isinstance(v, SList) and v.items and all(is_arr(x) for x in v.items):
+            # np.array([a0, a1, ...]) of same-shape arrays: stacked along a new leading axis
+            items = [frozen(x, st) for x in v.items]
+            shp0 = shape_of(items[0])
+            if not self.spec:
+                for x in items[1:]:
+                    if len(shape_of(x)) != len(shp0):
+                        raise Unsupported("np.array of arrays of different rank (line %d)" % n.lineno)
+                    g_ = z3.And(*[zi(a_) == zi(b_) for a_, b_ in zip(shape_of(x), shp0)])
+                    if simp_bool(g_) is not True:
+                        self.emit(st, "pre@call", "stack.L%d" % n.lineno, g_, n, "np.array([...]): the stacked arrays have the same shape")
+
+            def get(ix, st2, items=items):
+                r = elem(items[-1], list(ix[1:]), st2)
+                for j in range(len(items) - 2, -1, -1):
+                    r = merge(zi(ix[0]) == j, elem(items[j], list(ix[1:]), st2), r)
+                return r
+            return LArr(arr_dt(items[0]), [len(items)] + list(shp0), get, None, name="stack")
+        return super().b_numpy_array(args, kw, st, n)
 
     def b_numpy_full(self, args, kw, st, n):
         fill = args[1]
